@@ -221,6 +221,43 @@ theorem jobFile_eq (s h n : Str) (hh : h ≠ []) (hs : '/' ∉ h) (hn : ∀ t, n
     | nil => exact absurd rfl hh
     | cons c cs => rw [List.getLast?_cons_cons]; exact getLast?_mem_ne (by simp) hs) hn]
 
+/-- `os.path.join(s, seg)` for a segment that does not start with `/`: a prefix depending only on `s`, then `seg` -/
+def joinBase (s : Str) : Str := if s = [] ∨ s.getLast? = some '/' then s else s ++ ['/']
+
+theorem pathJoin_base (s seg : Str) (h : ∀ t, seg ≠ '/' :: t) : pathJoin s seg = joinBase s ++ seg := by
+  unfold pathJoin joinBase
+  split
+  · rename_i t; exact absurd rfl (h t)
+  · split <;> simp
+
+/-- the closed form of `get_array_scratch_file` -/
+theorem arrayFile_eq (s a n : Str) (ha : a ≠ []) (hs : '/' ∉ a) (hn : ∀ t, n ≠ '/' :: t) :
+    arrayFile s a n = joinBase s ++ "array_jobs".toList ++ '/' :: a ++ '/' :: n := by
+  unfold arrayFile
+  have hseg : ∀ t, "array_jobs".toList ≠ '/' :: t := by intro t; simp
+  rw [pathJoin_base s _ hseg]
+  have hXne : joinBase s ++ "array_jobs".toList ≠ [] := by simp
+  have hXl : (joinBase s ++ "array_jobs".toList).getLast? ≠ some '/' := by
+    rw [show "array_jobs".toList = "array_job".toList ++ ['s'] by decide, ← List.append_assoc, List.getLast?_concat]; decide
+  have ha0 : ∀ t, a ≠ '/' :: t := by intro t e; subst e; simp at hs
+  rw [pathJoin_plain _ a hXne hXl ha0]
+  rw [pathJoin_plain _ n (by simp) (by rw [getLast?_append_cons]; cases a with
+    | nil => exact absurd rfl ha
+    | cons c cs => rw [List.getLast?_cons_cons]; exact getLast?_mem_ne (by simp) hs) hn]
+
+theorem jobFile_eq' (s h n : Str) (hh : h ≠ []) (hs : '/' ∉ h) (hn : ∀ t, n ≠ '/' :: t) :
+    jobFile s h n = joinBase s ++ "jobs".toList ++ '/' :: h ++ '/' :: n := by
+  rw [jobFile_eq s h n hh hs hn, pathJoin_base s _ (by intro t; simp)]
+
+theorem jobFile_ne_arrayFile (s h a n m : Str) (hh : h ≠ []) (hs : '/' ∉ h) (ha : a ≠ []) (has : '/' ∉ a)
+    (hn : ∀ t, n ≠ '/' :: t) (hm : ∀ t, m ≠ '/' :: t) : jobFile s h n ≠ arrayFile s a m := by
+  rw [jobFile_eq' s h n hh hs hn, arrayFile_eq s a m ha has hm]
+  intro e
+  simp only [List.append_assoc] at e
+  have := List.append_cancel_left e
+  revert this
+  simp
+
 theorem split_at_slash (a1 a2 b1 b2 : Str) (h1 : '/' ∉ a1) (h2 : '/' ∉ a2) (h : a1 ++ '/' :: b1 = a2 ++ '/' :: b2) :
     a1 = a2 ∧ b1 = b2 := by
   induction a1 generalizing a2 with
